@@ -430,3 +430,240 @@ Fixpoint lower_ops (e : aexpr) : list Z :=
   | AFloorDiv a b => lower_ops a ++ lower_ops b ++ [4]
   | ACeilDiv a b => lower_ops a ++ lower_ops b ++ [5]
   end.
+
+(* ================================================================== convert-scf-to-cf: scf.index_switch *)
+(* arith.index_cast index -> i32: signed truncation to 32 bits *)
+Definition trunc32 (z : Z) : Z :=
+  let m := z mod 4294967296 in if m <? 2147483648 then m else m - 4294967296.
+
+Section SwitchK.
+Variable st : Type.
+Variable casef : nat -> st -> st.   (* region i of the switch; i = number of cases is the default region *)
+Inductive sterm :=
+  | SSwitch (d : nat) (cs : list (Z * nat))   (* %v = index_cast %arg : index to i32 ; cf.switch %v [default ^d, c: ^t ...] *)
+  | SBr (t : nat)
+  | SExit.
+Record sblock := mkSBlock { sb_pay : option nat; sb_term : sterm }.
+
+Fixpoint sw_lookup (v : Z) (cs : list (Z * nat)) (d : nat) : nat :=
+  match cs with
+  | [] => d
+  | (c, t) :: r => if v =? c then t else sw_lookup v r d
+  end.
+
+Fixpoint sw_run (fuel : nat) (g : list sblock) (arg : Z) (pc : nat) (s : st) : rres st :=
+  match fuel with
+  | O => RFuel st
+  | S f =>
+      match nth_error g pc with
+      | None => RStuck st
+      | Some b =>
+          let s' := match sb_pay b with Some i => casef i s | None => s end in
+          match sb_term b with
+          | SSwitch d cs => sw_run f g arg (sw_lookup (trunc32 arg) cs d) s'
+          | SBr t => sw_run f g arg t s'
+          | SExit => RDone st s'
+          end
+      end
+  end.
+
+(* SwitchLowering: [condition_block; case blocks in order; default block; continue_block] *)
+Definition lower_switch (cases : list Z) : list sblock :=
+  let n := length cases in
+  mkSBlock None (SSwitch (S n) (combine cases (seq 1 n)))
+  :: map (fun i => mkSBlock (Some i) (SBr (n + 2))) (seq 0 n)
+  ++ [mkSBlock (Some n) (SBr (n + 2)); mkSBlock None SExit].
+
+Fixpoint case_idx (v : Z) (cases : list Z) : option nat :=
+  match cases with
+  | [] => None
+  | c :: r => if v =? c then Some O else option_map S (case_idx v r)
+  end.
+(* scf.index_switch: the region of the first case equal to the (index) argument, else the default *)
+Definition switch_sem (cases : list Z) (arg : Z) (s : st) : st :=
+  match case_idx arg cases with Some i => casef i s | None => casef (length cases) s end.
+End SwitchK.
+
+(* ================================================================== control-flow-hoist *)
+(* SCFIfHoistPattern: when the scf.if is speculatable and side-effect free (recursively: every op of
+   both branches is), ALL non-terminator ops of the then- and else-region are cloned in front of the
+   if (then-ops first) -- nothing is hoisted otherwise.  (The CSE run that follows is not modelled.) *)
+Definition cfh_pass (then_ops else_ops : list (opkind * option Z)) : bool :=
+  forallb (fun o => hoistable_kind (fst o) (snd o)) (then_ops ++ else_ops).
+
+Section Cfh.
+Variable st : Type.
+(* each branch evaluates one op whose operands are defined outside the if (value None = it traps),
+   then continues with the value *)
+Variables (thenk elsek : Z -> st -> st).
+Definition cfh_orig (thenv elsev : option Z) (c : bool) (s : st) : option st :=
+  if c then option_map (fun v => thenk v s) thenv else option_map (fun v => elsek v s) elsev.
+Definition cfh_hoisted (thenv elsev : option Z) (c : bool) (s : st) : option st :=
+  match thenv, elsev with
+  | Some a, Some b => Some (if c then thenk a s else elsek b s)
+  | _, _ => None
+  end.
+End Cfh.
+
+(* ================================================================== lower-affine: for / load / store *)
+Fixpoint aexpr_closed (e : aexpr) : bool :=
+  match e with
+  | AConst _ => true
+  | ADim _ | ASym _ => false
+  | AAdd a b | AMul a b | AMod a b | AFloorDiv a b | ACeilDiv a b => aexpr_closed a && aexpr_closed b
+  end.
+Fixpoint aexpr_has_sym (e : aexpr) : bool :=
+  match e with
+  | AConst _ | ADim _ => false
+  | ASym _ => true
+  | AAdd a b | AMul a b | AMod a b | AFloorDiv a b | ACeilDiv a b => aexpr_has_sym a || aexpr_has_sym b
+  end.
+
+Inductive laf_res := LRaise (code : Z) | LFor (lb ub step : Z) | LTrap.
+(* LowerAffineFor: both bound maps must have exactly one result (assert), which is lowered with NO
+   dims and NO symbols (an expression mentioning one raises IndexError); step is the attribute *)
+Definition lower_affine_for (lbs ubs : list aexpr) (step : Z) : laf_res :=
+  match lbs, ubs with
+  | [lb], [ub] =>
+      if negb (aexpr_closed lb) || negb (aexpr_closed ub) then LRaise 5
+      else match lower_eval lb [] [], lower_eval ub [] [] with
+           | Some l, Some u => LFor l u step
+           | _, _ => LTrap
+           end
+  | _, _ => LRaise 6
+  end.
+(* affine.for with single constant-expression bounds *)
+Definition affine_for_bounds (lb ub : aexpr) : option (Z * Z) :=
+  match aff_eval lb [] [], aff_eval ub [] [] with Some l, Some u => Some (l, u) | _, _ => None end.
+
+(* LowerAffineLoad / LowerAffineStore: every map result is lowered over dims = the index operands and
+   NO symbols; None = a division by zero when the index is computed *)
+Definition lower_index_map (results : list aexpr) (dims : list Z) : list (option Z) :=
+  map (fun e => lower_eval e dims []) results.
+Definition affine_index_map (results : list aexpr) (dims : list Z) : list (option Z) :=
+  map (fun e => aff_eval e dims []) results.
+
+(* ================================================================== frontend-desymrefy (single block) *)
+(* values: defined outside the symref ops (constants, arguments, results of other ops) or the result
+   of a symref.fetch *)
+Inductive sval := VOut (n : nat) | VFetch (r : nat).
+Inductive sop :=
+  | SDeclare (s : nat)
+  | SUpdate (s : nat) (v : sval)
+  | SFetch (s : nat) (r : nat)
+  | SUse (id : nat) (args : list sval).     (* any other op: defines VOut id, uses args *)
+
+Definition sval_eqb (a b : sval) : bool :=
+  match a, b with
+  | VOut x, VOut y => Nat.eqb x y
+  | VFetch x, VFetch y => Nat.eqb x y
+  | _, _ => false
+  end.
+Definition subst_val (r : nat) (v : sval) (x : sval) : sval :=
+  match x with VFetch r' => if Nat.eqb r r' then v else x | _ => x end.
+(* Rewriter.replace_op(read r, [], [v]): erase the fetch, every use of its result becomes v *)
+Definition replace_fetch (r : nat) (v : sval) (ops : list sop) : list sop :=
+  flat_map (fun o => match o with
+                     | SFetch _ r' => if Nat.eqb r r' then [] else [o]
+                     | SUpdate s x => [SUpdate s (subst_val r v x)]
+                     | SUse id args => [SUse id (map (subst_val r v) args)]
+                     | SDeclare _ => [o]
+                     end) ops.
+Definition erase_updates_of (s : nat) (keep_last : bool) (ops : list sop) : list sop :=
+  let n := length (filter (fun o => match o with SUpdate s' _ => Nat.eqb s s' | _ => false end) ops) in
+  snd (fold_left (fun (acc : nat * list sop) o =>
+                    let '(k, out) := acc in
+                    match o with
+                    | SUpdate s' _ =>
+                        if Nat.eqb s s'
+                        then (S k, if keep_last && Nat.eqb (S k) n then out ++ [o] else out)
+                        else (k, out ++ [o])
+                    | _ => (k, out ++ [o])
+                    end) ops (O, [])).
+Definition erase_declare (s : nat) (ops : list sop) : list sop :=
+  filter (fun o => match o with SDeclare s' => negb (Nat.eqb s s') | _ => true end) ops.
+
+Definition reads_of (s : nat) (ops : list sop) : list nat :=
+  flat_map (fun o => match o with SFetch s' r => if Nat.eqb s s' then [r] else [] | _ => [] end) ops.
+Definition writes_of (s : nat) (ops : list sop) : list sval :=
+  flat_map (fun o => match o with SUpdate s' v => if Nat.eqb s s' then [v] else [] | _ => [] end) ops.
+(* lower_positional_bound: operand of the nearest update of s that precedes fetch r (the binary
+   search over operation indices is modelled by its specification) *)
+Fixpoint last_write_before (s r : nat) (ops : list sop) (cur : option sval) : option sval :=
+  match ops with
+  | [] => None
+  | SFetch s' r' :: rest => if Nat.eqb r r' then cur else last_write_before s r rest cur
+  | SUpdate s' v :: rest => last_write_before s r rest (if Nat.eqb s s' then Some v else cur)
+  | _ :: rest => last_write_before s r rest cur
+  end.
+(* one round of "replace every read with the closest preceding write" *)
+Definition forward_reads (s : nat) (ops : list sop) : list sop :=
+  fold_left (fun cur r => match last_write_before s r cur None with
+                          | Some v => replace_fetch r v cur
+                          | None => cur
+                          end) (reads_of s ops) ops.
+
+Inductive dres := DOk (ops : list sop) | DLoop.    (* DLoop: `while definitions` never terminates *)
+
+(* prune_definitions: one pass of the inner `for definition in definitions` for symbol s *)
+Definition prune_one (s : nat) (ops : list sop) : list sop :=
+  let reads := reads_of s ops in
+  let writes := writes_of s ops in
+  match reads with
+  | [] => erase_declare s (erase_updates_of s false ops)
+  | _ =>
+      match writes with
+      | [w] => erase_declare s (erase_updates_of s false
+                 (fold_left (fun cur r => match writes_of s cur with
+                                          | w' :: _ => replace_fetch r w' cur
+                                          | [] => cur
+                                          end) reads ops))
+      | _ => forward_reads s ops
+      end
+  end.
+Definition declared (ops : list sop) : list nat :=
+  flat_map (fun o => match o with SDeclare s => [s] | _ => [] end) ops.
+Fixpoint prune_definitions (fuel : nat) (ops : list sop) : dres :=
+  match fuel with
+  | O => DLoop
+  | S f =>
+      match declared ops with
+      | [] => DOk ops
+      | ds => prune_definitions f (fold_left (fun cur s => prune_one s cur) ds ops)
+      end
+  end.
+
+(* the reference: one left-to-right walk that remembers the current value of every declared symbol *)
+Fixpoint sym_lookup (s : nat) (m : list (nat * sval)) : option sval :=
+  match m with [] => None | (s', v) :: r => if Nat.eqb s s' then Some v else sym_lookup s r end.
+Fixpoint val_lookup (r : nat) (m : list (nat * sval)) : option sval :=
+  match m with [] => None | (r', v) :: t => if Nat.eqb r r' then Some v else val_lookup r t end.
+Definition resolve (fm : list (nat * sval)) (x : sval) : sval :=
+  match x with VFetch r => match val_lookup r fm with Some v => v | None => x end | _ => x end.
+(* forward ops sm fm: sm = symbol -> current value, fm = forwarded fetch -> value; emits the surviving ops *)
+Fixpoint forward (ops : list sop) (sm fm : list (nat * sval)) : list sop :=
+  match ops with
+  | [] => []
+  | SDeclare s :: rest => forward rest sm fm
+  | SUpdate s v :: rest => forward rest ((s, resolve fm v) :: sm) fm
+  | SFetch s r :: rest =>
+      match sym_lookup s sm with
+      | Some v => forward rest sm ((r, v) :: fm)
+      | None => SFetch s r :: forward rest sm fm
+      end
+  | SUse id args :: rest => SUse id (map (resolve fm) args) :: forward rest sm fm
+  end.
+
+(* SSA discipline of a block: a fetch / op result id is defined once and never mentioned before its
+   definition (`seen` = values mentioned so far) *)
+Definition mentions_f (r : nat) (v : sval) : bool := match v with VFetch r' => Nat.eqb r r' | _ => false end.
+Definition mentions_u (n : nat) (v : sval) : bool := match v with VOut n' => Nat.eqb n n' | _ => false end.
+Fixpoint wf_block (ops : list sop) (seen : list sval) : bool :=
+  match ops with
+  | [] => true
+  | SDeclare _ :: r => wf_block r seen
+  | SUpdate _ v :: r => wf_block r (v :: seen)
+  | SFetch _ x :: r => negb (existsb (mentions_f x) seen) && wf_block r (VFetch x :: seen)
+  | SUse id args :: r => negb (existsb (mentions_u id) (args ++ seen)) && wf_block r (VOut id :: args ++ seen)
+  end.
+
